@@ -289,7 +289,7 @@ class C08(Property):
     design_ref = 'DESIGN.md section 10, C08'
     required_theorems = (
         'decode_encode', 'encode_decode_encode', 'decode_normal', 'canonVal_idem', 'written_value_is_read_back',
-        'readBack_written', 'tables_have_unique_names', 'cycle_fixed_point', 'cycle_idempotent', 'tableOf_ok', 'cycle_twice',
+        'readBack_written', 'tables_have_unique_names', 'cycle_fixed_point', 'cycle_idempotent', 'tableOf_ok', 'cycle_twice', 'relation_confidence_default',
         'cycleOnt_twice', 'cycleOnt_sorted_complete', 'cycleOnt_order_free',
     )
     level_text = ('Lean 4 theorems over a model of the generate_xml / create_from_xml pairs. Attribute level (one table of attribute '
